@@ -1192,7 +1192,7 @@ def plan(tier, seed):
     # apply_target_encoding: one task per encoding set last; pairs (previous, last) with all texts, triples with short ones
     tasks += [("ate", 3 if quick else 4, e, 3, 1 if quick else 2) for e, _c, _m in ATE_ENCODINGS]
     # the encoded form keeps the str's width: one task per encoding, runs of <= 4 lacking characters
-    tasks += [("encw", ENCW_MAXRUN, e) for e, _c, _m in ATE_ENCODINGS]
+    tasks += [("encw", ENCW_MAXRUN if quick else ENCW_MAXRUN + 1, e) for e, _c, _m in ATE_ENCODINGS]
     tasks += [("scalars", i, 8) for i in range(8)]
     for gi, g in enumerate(GROUPS):
         n = sum(len(g[3]) ** k for k in range(lens[g[0]] + 1))
@@ -1235,7 +1235,7 @@ def run(tier="quick", seed=0, procs=None):
                                        f"{len(ATE_ALPHA)} characters (ASCII, Latin-1, CJK, 5 DEC graphics, space), 3 byte strings]; every ordered TRIPLE x [the DEC characters alone, strings of <= {ate_deep}, 3 byte strings]")
     tmp_bound = "; every ordered pair with util.set_temporary_encoding (inside the context, and after leaving it)"
     bounds["apply-target-encoding"] += tmp_bound + " x [every DEC graphics character alone and between two letters]"
-    bounds["encoded-width"] = (f"encodings {ate_names}, each set directly and after utf-8: every RUN of 1..{ENCW_MAXRUN} characters the codec lacks over <= {ENCW_PER_CLASS} representatives per width class "
+    bounds["encoded-width"] = (f"encodings {ate_names}, each set directly and after utf-8: every RUN of 1..{ENCW_MAXRUN if quick else ENCW_MAXRUN + 1} characters the codec lacks over <= {ENCW_PER_CLASS} representatives per width class "
                                "(one column, two columns, zero width; for utf-8: lone surrogates) -- alone, after 'a', before 'b', between 'a' and 'b', between two native characters "
                                f"(CJK / Latin-1 / Cyrillic / a DEC graphics character / a combining mark, as the encoding has them); every pair of runs of <= 2 separated by one encodable character")
     bounds["encoding-switch"] = f"encodings {ate_names}: every ordered pair and every ordered triple of set_encoding calls" + tmp_bound
